@@ -3,3 +3,10 @@ import props.trees as T
 
 def run(chk):
     return T.run(chk, "C12", T.view_c12, ["PV.Props.C12", "PV.Props.C12morris", "PV.Props.C12clear"], "C12 trees")
+
+
+def replay_family(cfg):
+    import pv, diffrun
+    fam = diffrun.Family("tree", pv.build_harness("tree", cfg, ["tree.c"], san="asan"), spec_view=T.view_c12)
+    fam.keep_prefix = 1
+    return fam
